@@ -745,6 +745,7 @@ func World(seed uint64, index int, p *Params) *check.World {
 	}
 	w.Lifetimes = append(w.Lifetimes, l1)
 	if len(p.Envs) == 0 && p.CleanP == 0 {
+		b.nonTestNames(w)
 		return w
 	}
 	prog2 := b.edit(prog)
@@ -796,7 +797,46 @@ func World(seed uint64, index int, p *Params) *check.World {
 		}
 		w.Lifetimes = append(w.Lifetimes, l3)
 	}
+	b.nonTestNames(w)
 	return w
+}
+
+// nonTestNames: go-snaps accepts anything with the testingT methods; a *testing.B
+// is called BenchmarkX, a fuzz target FuzzX (its inputs FuzzX/seed#0). Some worlds
+// give a subset of their top-level tests such names. The real runner only executes
+// Test functions of the pool, so every lifetime of such a world runs its tests as
+// simulated tests under the scheduler.
+func (b *builder) nonTestNames(w *check.World) {
+	r, p := b.r, b.p
+	if !p.NonTestNames || !r.Bool(0.3) {
+		return
+	}
+	salt := r.U64()
+	rename := func(name string) string {
+		if !strings.HasPrefix(name, "Test") {
+			return name
+		}
+		h := scen.Mix(salt, uint64(len(name))*131+uint64(name[len(name)-1]))
+		switch h % 4 {
+		case 0:
+			return "Benchmark" + name[4:]
+		case 1:
+			return "Fuzz" + name[4:]
+		}
+		return name
+	}
+	for _, l := range w.Lifetimes {
+		if l.Mode != "tasks" {
+			l.Mode, l.Count, l.Run, l.Shuffle = "tasks", 1, "", 0
+			if l.Sched == nil {
+				l.Sched = b.sched()
+			}
+		}
+		for _, n := range l.Tests {
+			n.Name = rename(n.Name)
+		}
+	}
+	w.Note += " non-Test names"
 }
 
 func stripSkips(prog []*scen.TestNode) {
